@@ -71,6 +71,7 @@ def shards(tier):
         out.append({'kind': 'reparse', 'prog': i})
         out.append({'kind': 'extent', 'prog': i})
         out.append({'kind': 'rawput', 'prog': i})
+        out.append({'kind': 'coords', 'prog': i})
     d2 = (1, 3, 8, 14) if tier == 'quick' else range(len(PROGRAMS))
     for i in d2:
         p = PROGRAMS[i]
@@ -181,6 +182,80 @@ def run_rect(fst, pi, o1, o2, text, res, first=None):
     return True
 
 
+def coord_encodings(lines, ln, col, eln, ecol):
+    """Every documented way to write the same rectangle: negative line numbers count from the last line, negative columns from the
+    end of their line, 'end' is the last line / the end of the line, columns beyond the end of the line are clipped."""
+    n = len(lines)
+
+    def enc_ln(v):
+        return [v - n] + (['end'] if v == n - 1 else [])
+
+    def enc_col(v, line):
+        L = len(lines[line])
+        return ([v - L] if v < L else ['end', L + 7]) + ([-L - 3] if v == 0 and L else [])
+
+    out = []
+    for a in enc_ln(ln):
+        out.append((a, col, eln, ecol))
+    for b in enc_col(col, ln):
+        out.append((ln, b, eln, ecol))
+    for c in enc_ln(eln):
+        out.append((ln, col, c, ecol))
+    for d in enc_col(ecol, eln):
+        out.append((ln, col, eln, d))
+    out.append((enc_ln(ln)[0], enc_col(col, ln)[0], enc_ln(eln)[0], enc_col(ecol, eln)[0]))
+    return out
+
+
+def run_coords(fst, pi, src, tier, res):
+    """Differential: a rectangle written with negative / 'end' / over-large coordinates must do exactly what the same rectangle
+    written with plain coordinates does (same exception class or same resulting source and tree). The plain form itself is judged
+    against the full parse by the rectangle pass."""
+    lines = src.split('\n')
+    span = 8 if tier == 'quick' else 16
+    for o1 in range(len(src) + 1):
+        for o2 in range(o1, min(len(src), o1 + span) + 1):
+            if tier == 'quick' and o2 - o1 > 3 and '\n' not in src[o1:o2]:
+                continue  # quick: longer rectangles only when they span lines
+            ln, col = off2lc(src, o1)
+            eln, ecol = off2lc(src, o2)
+            for text in ('z', ''):
+                if not text and o1 == o2:
+                    continue
+                ref = fst.FST(src, 'exec')
+                try:
+                    ref.put_src(text, ln, col, eln, ecol, 'reparse')
+                    want = ('ok', ref.src, O.dump_pos(ref.a))
+                except Exception as e:  # noqa: BLE001
+                    want = ('raised', e.__class__.__name__, None)
+                for enc in coord_encodings(lines, ln, col, eln, ecol):
+                    cid = f'C10/p{pi}/coords {enc!r} == {(ln, col, eln, ecol)!r} <-{text!r}'
+                    res.evals += 1
+                    res.transitions += 1
+                    res.traces += 1
+                    root = fst.FST(src, 'exec')
+                    pre = O.dump_pos(root.a)
+                    try:
+                        with deadline(10):
+                            root.put_src(text, *enc, 'reparse')
+                        got = ('ok', root.src, O.dump_pos(root.a))
+                    except CaseTimeout:
+                        res.fail(cid, 'hang', '', {'prog': pi}, None)
+                        continue
+                    except Exception as e:  # noqa: BLE001
+                        got = ('raised', e.__class__.__name__, None)
+                        if (root.src, O.dump_pos(root.a)) != (src, pre):
+                            res.fail(cid, 'raised-but-source-changed', f'old={src!r}\n{e!r}\nnow={root.src!r}', {'prog': pi}, {'prog': pi, 'coords': True})
+                            continue
+                    if got != want:
+                        res.fail(cid, 'equivalent-coordinates-give-different-result',
+                                 f'old={src!r}\nplain {(ln, col, eln, ecol)} -> {want[:2]!r}\ngiven {enc} -> {got[:2]!r}', {'prog': pi},
+                                 {'prog': pi, 'coords': True})
+                    else:
+                        res.outcomes['coords-same'] += 1
+                        res.nontriv(pi, o1, o2, text, enc)
+
+
 def run_shard(desc, tier, res):
     import fst
     pi = desc['prog']
@@ -219,6 +294,8 @@ def run_shard(desc, tier, res):
             ind = ' ' * (o1 - (src.rfind('\n', 0, o1) + 1))
             for text in TEXTS_EXTENT + [f'p\n{ind}q', f'if p:\n{ind}    q\n{ind}r']:
                 run_rect(fst, pi, o1, o2, text, res)
+    elif desc['kind'] == 'coords':
+        run_coords(fst, pi, src, tier, res)
     elif desc['kind'] == 'reparse':
         tree = ast.parse(src)
         for path, node in O.iter_nodes(tree):
@@ -314,6 +391,9 @@ def run_shard(desc, tier, res):
 
 def replay(rep, res):
     import fst
+    if rep.get('coords'):
+        run_coords(fst, rep['prog'], PROGRAMS[rep['prog']], 'quick', res)
+        return
     if 'rawop' in rep:
         from .. import edits as E
         root = fst.FST(PROGRAMS[rep['prog']], 'exec')
